@@ -68,6 +68,8 @@ class WrapHarness(Harness):
         if g == 'symallx':
             return gen_text(I, n, 'c', (1, 2, 3, 4), exclude=(ESC,), lenvar=cfg.get('lenvar', True),
                             tokens=cfg.get('tokens', ()))
+        if g == 'symcls':
+            return gen_text(I, n, 'c', tuple(cfg['classes']), lenvar=cfg.get('lenvar', True))
         if g == 'alpha':
             return gen_alpha(I, n, cfg['alphabet'], lenvar=cfg.get('lenvar', True))
         raise Unsupported('generator ' + g)
